@@ -166,6 +166,17 @@ func checkConservation(s *gen.Stream, f []byte, add func(clause, known, msg stri
 		if t := d.LastLine + 1; (!d.Race || d.NoFooter) && t < n && s.Lines[t].Blank && s.Lines[t].Class == gen.Junk {
 			plain[t] = true
 		}
+		// A dump that was damaged on purpose may be completed by look-alike text
+		// that follows it (a file line after a "created by" that lost its own, a
+		// call after a footer-less report, ...): such lines may be withheld too.
+		if d.Damaged {
+			for t := d.LastLine + 1; t < n && t <= d.LastLine+3 && s.Lines[t].Class == gen.Junk; t++ {
+				if !continuationLike(s.Text(t)) {
+					break
+				}
+				plain[t] = true
+			}
+		}
 		// a report generated without footer that happens to be followed by an
 		// exact separator line is simply a complete report
 		if t := d.LastLine + 1; d.NoFooter && t < n && s.Lines[t].Class == gen.Junk && string(bytes.TrimRight(s.Text(t), "\r\n")) == "==================" {
@@ -650,4 +661,22 @@ func heldAt(s *gen.Stream, del int) map[int]bool {
 		out[last], out[last-1] = true, true
 	}
 	return out
+}
+
+// continuationLike: the documented grammar can read the line as part of a
+// dump (call, file line, creation line, elision marker, section header, blank).
+func continuationLike(l []byte) bool {
+	t := strings.TrimRight(string(l), "\r\n")
+	tt := strings.TrimLeft(t, " \t")
+	switch {
+	case tt == "":
+		return true
+	case strings.HasSuffix(tt, ")"), strings.HasPrefix(tt, "created by "), strings.HasPrefix(tt, "..."):
+		return true
+	case strings.HasPrefix(tt, "Previous "), strings.HasPrefix(tt, "Goroutine "), t == "==================":
+		return true
+	case tt != t && strings.Contains(tt, ":"): // indented "file:line"
+		return true
+	}
+	return false
 }
